@@ -205,6 +205,24 @@ impl Clone for Z {
         Z
     }
 }
+/// `Debug` for `Z` writes nothing and counts the calls: how many elements a formatter visited
+pub static mut ZFMTS: u64 = 0;
+impl core::fmt::Debug for Z {
+    fn fmt(&self, _f: &mut core::fmt::Formatter<'_>) -> core::fmt::Result {
+        unsafe {
+            ZFMTS += 1;
+        }
+        Ok(())
+    }
+}
+pub fn zfmts() -> u64 {
+    unsafe { ZFMTS }
+}
+pub fn zfmt_reset() {
+    unsafe {
+        ZFMTS = 0;
+    }
+}
 pub fn zdrops() -> u64 {
     unsafe { ZDROPS }
 }
